@@ -837,11 +837,12 @@ def check_url(col, case, sub='urlsplit'):
             bad('params() = %r, expected last values %r' % (p1[1], last))
         if p2[1] != every:
             bad('params(collapse=False) = %r, expected %r' % (p2[1], every))
-    elif case.get('token') is None:
+    elif exp[3] == '':
         if p1[1] != {} or p2[1] != {}:
             bad('params() = %r / %r without a query' % (p1[1], p2[1]))
     else:
-        # a bare token has no name=value shape: only "returns a dict"
+        # a bare token (or the tail of an unsplit fragment) has no known
+        # name=value shape: only "returns a dict"
         col.unspec(sub, 'query without name=value pairs')
 
 
@@ -998,6 +999,14 @@ URL_EXAMPLES = [
     {'scheme': None, 'netloc': None, 'path': 'h/p', 'token': 'q',
      'fragment': 'f'},
     {'scheme': 'http', 'netloc': 'host', 'path': '', 'fragment': 'frag'},
+    # case is preserved outside the scheme; ? inside query and fragment
+    {'scheme': 'HTTPS', 'netloc': 'User:Pass@Host.Example.COM:8080',
+     'path': '/A/b', 'token': 'x?y=1&Z', 'fragment': 'F?g'},
+    {'scheme': 'rpc', 'netloc': '[FE80::A%25Eth0]:65535', 'path': '/p',
+     'fragment': 'f?q=1'},
+    {'scheme': 'http', 'netloc': 'h', 'path': '/p',
+     'pairs': [['a b', 'x?y', [1, 0, 0]], ['A B', '1', [0, 1, 0]],
+               ['a b', '\xe9=&', [0, 1, 1]]], 'fragment': 'f'},
 ]
 
 
@@ -1044,7 +1053,7 @@ def tasks(tier, seed):
         out.append(Task('hostport/allports', hostport_allports, lo=lo,
                         hi=lo + step))
     shards = 3 if quick else 6
-    n = 1500 if quick else 8000
+    n = 1200 if quick else 8000
     for i in range(shards):
         out.append(Task('eui64/random', eui64_random, n=n,
                         seed=core.derive_seed(seed, ID, 'eui64', i)))
